@@ -363,7 +363,7 @@ theorem packet_inv {b : B} (h : BInv b) (c : Nat) (p : Packet) : BInv (packet b 
 /-- client identifier and CleanSession as `getSession` sees them -/
 def cidOf (c : Nat) (req : Connect) : Bytes × Bool :=
   if req.clientId.isEmpty
-    then (("internalclient".toUTF8.toList ++ (toString c).toUTF8.toList), true)
+    then ((Mqtt.Model.Broker.anonId c), true)
     else (req.clientId, req.clean)
 
 /-- the session object a CONNECT resumes, if any -/
